@@ -113,4 +113,86 @@ class C12(Prop):
         return cands
 
 
+    # ---------------------------------------------------------------- Prometheus-level engine
+    extra_bins = [("hprom", "c12p")]
+    extra_coq_targets = ["C12/ExecProm.vo"]
+
+    def extra_checks(self, ctx):
+        """The same idle-timeout model observed through the real Prometheus exporter
+        (PrometheusBuilder::idle_timeout + mock clock): an observation is a whole render(), expanded
+        into one Observe per target in the order of get_recent_metrics.  Covers the exporter-level
+        clause: an expired metric disappears from the OUTPUT, an expired histogram loses its
+        aggregated distribution, and a re-registered one restarts from zero."""
+        from . import core
+        rng = ctx["rng"].fork()
+        n = 700 if ctx["tier"] == "quick" else 12000
+        cases = []
+        for _ in range(n):
+            mask = rng.weighted([(6, 7), (1, 0), (3, rng.below(8))])
+            T = None if rng.chance(1, 8) else rng.range(1, 20)
+            tt = T or 5
+            nkeys = rng.range(1, 3)
+            ops = []
+            for _ in range(rng.range(2, 30)):
+                r = rng.below(10)
+                if r < 4:
+                    ops.append(["U", rng.pick("cgh"), rng.below(nkeys), rng.below(50)])
+                elif r < 7:
+                    ops.append(["A", rng.pick([0, 1, max(tt - 1, 0), tt, tt + 1, 2 * tt])])
+                else:
+                    ops.append(["R"])
+            cases.append(dict(mask=mask, timeout=T, ops=ops))
+        binpath = core.harness_build("hprom", "c12p")
+
+        def line(c):
+            toks = []
+            for o in c["ops"]:
+                toks.append("U%s%d:%d" % (o[1], o[2], o[3]) if o[0] == "U" else ("A%d" % o[1] if o[0] == "A" else "R"))
+            return "%d %s | %s" % (c["mask"], "-" if c["timeout"] is None else c["timeout"], " ".join(toks))
+        rc, outs, err = core.run_impl(binpath, [line(c) for c in cases], timeout=900)
+        if rc != 0 or len(outs) != len(cases):
+            raise core.MachineryBroken("c12p driver failed: rc=%s %s" % (rc, err[-1000:]))
+        triples, shown = [], []
+        deletions = 0
+        for i, (c, o) in enumerate(zip(cases, outs)):
+            targets = sorted({(op[1], op[2]) for op in c["ops"] if op[0] == "U"}, key=lambda t: ("cgh".index(t[0]), t[1]))
+            toks = o.split(" ")
+            hist, pouts = [], []
+            for op, tok in zip(c["ops"], toks):
+                if op[0] == "U":
+                    hist.append("Update %s %s %s" % (KIND[op[1]], cq_N(op[2]), cq_N(op[3]))); pouts.append("PUnit")
+                elif op[0] == "A":
+                    hist.append("Advance %s" % cq_N(op[1])); pouts.append("PUnit")
+                else:
+                    present = {}
+                    body = tok[2:-1]
+                    for part in body.split("|") if body else []:
+                        k, v = part.split("=")
+                        present[(k[0], int(k[1:]))] = [int(x) for x in v.split(",")]
+                    for (k, key) in targets:
+                        hist.append("Observe %s %s" % (KIND[k], cq_N(key)))
+                        if (k, key) in present:
+                            pouts.append("PKept %s" % cq_list([cq_N(x) for x in present[(k, key)]]))
+                        else:
+                            pouts.append("PGone")
+            m = c["mask"]
+            cfg = "{| mask_c := %s; mask_g := %s; mask_h := %s; timeout := %s; by_kind := true |}" % (
+                cq_bool(m & 1), cq_bool(m & 2), cq_bool(m & 4), cq_opt(None if c["timeout"] is None else cq_N(c["timeout"])))
+            triples.append((i, "(%s, %s)" % (cfg, cq_list(hist)), cq_list(pouts)))
+            shown.append(dict(case=c, render_tokens=o))
+        res = core.run_model("C12", triples, exec_mod="ExecProm", shard=200, tag="prom")
+        bad = [i for i in range(len(cases)) if not res[i][1]]
+        dis = [i for i in range(len(cases)) if not res[i][0]]
+        ctx["coverage"]["prometheus_level_histories"] = len(cases)
+        ctx["coverage"]["prometheus_level_renders"] = sum(1 for c in cases for o in c["ops"] if o[0] == "R")
+        ctx["coverage"]["prometheus_level_sample"] = shown[0]
+        if bad:
+            return [("prom-spec", "through the Prometheus exporter (idle_timeout + mock clock) a series is present/absent or has a value other than the per-metric specification says",
+                     dict(prom_case=shown[bad[0]], failing=len(bad)))]
+        if dis:
+            return [("prom-corr", "Prometheus-level observations disagree with coq/C12 model (ExecProm.run_case)", dict(prom_case=shown[dis[0]], no_failing_input=True,
+                     broken="correspondence C12/ExecProm.v vs harness c12p"))]
+        return []
+
+
 PROP = C12()
